@@ -79,6 +79,14 @@ class Repo:
                 self.modules[name] = m
         if len(self.modules) < 30:
             raise AnalysisError('only %d modules found under %s' % (len(self.modules), pkgdir))
+        # normalisation: helpers that did not exist in the reference tree are substituted back into their callers (inline.py)
+        self.inlined = []
+        if os.environ.get('NBSA_NO_INLINE') != '1':
+            from .inline import inline_new_functions, load_baseline
+            try:
+                self.inlined = inline_new_functions(self.modules, load_baseline())
+            except RecursionError:
+                raise AnalysisError('helper inlining did not terminate')
         for m in self.modules.values():
             self._index(m)
 
@@ -221,9 +229,18 @@ class Repo:
 
     def module_assign(self, modname, name):
         m = self.mod(modname)
-        if name not in m.assigns:
-            raise AnalysisError('anchor %s.%s (module-level assignment) not found' % (modname, name))
-        return m.assigns[name][-1]
+        for _hop in range(3):
+            if name in m.assigns:
+                return m.assigns[name][-1]
+            # moved to a sibling module and imported back: follow `from .x import name`
+            tgt = m.imports.get(name)
+            if not tgt or '.' not in tgt:
+                break
+            mod2, name2 = tgt.rsplit('.', 1)
+            if mod2 not in self.modules:
+                break
+            m, name = self.modules[mod2], name2
+        raise AnalysisError('anchor %s.%s (module-level assignment) not found' % (modname, name))
 
     def enclosing(self, node, types):
         n = self._parent.get(node)
